@@ -166,9 +166,9 @@ type c19sDeadlock struct{ what string }
 func (d *c19sDeadlock) Error() string { return d.what }
 
 var (
-	c19sClientFrame = regexp.MustCompile(`referenceclient\.\(\*invoker\)\.(\w+)\(`)          //nolint:gochecknoglobals
+	c19sClientFrame = regexp.MustCompile(`referenceclient\.\(\*invoker\)\.(\w+)\(`)           //nolint:gochecknoglobals
 	c19sServerFrame = regexp.MustCompile(`referenceserver\.\(\*conformanceServer\)\.(\w+)\(`) //nolint:gochecknoglobals
-	c19sGoroutineID = regexp.MustCompile(`^goroutine (\d+) \[`)                                 //nolint:gochecknoglobals
+	c19sGoroutineID = regexp.MustCompile(`^goroutine (\d+) \[`)                               //nolint:gochecknoglobals
 )
 
 // deadlockSignature inspects all goroutines of the process (one RPC is in
@@ -572,6 +572,24 @@ type c19sVerdict struct {
 	RespEnc bool
 }
 
+var c19sSizeInMessage = regexp.MustCompile(`message size (\d+) is larger than configured max`) //nolint:gochecknoglobals
+
+// c19sRejectedOnOtherSize tells, for a message that was rejected although its
+// uncompressed encoded size is within the limit, whether the peer measured
+// something else than that size (its error names the size it looked at). When
+// the error does not say, a compressed message is assumed to have been
+// measured in compressed form.
+func c19sRejectedOnOtherSize(errMessage string, uncompressedSize int, compression string) bool {
+	if compression == "identity" {
+		return false
+	}
+	if m := c19sSizeInMessage.FindStringSubmatch(errMessage); m != nil {
+		measured, err := strconv.Atoi(m[1])
+		return err != nil || measured != uncompressedSize
+	}
+	return true
+}
+
 func c19sIsStream(shape string) bool {
 	return shape == "client-stream" || shape == "bidi-half" || shape == "bidi-full"
 }
@@ -677,9 +695,9 @@ func c19sServerSide(env *c19sEnv, tc c19sCase) (c19sVerdict, error) {
 		verdict.Detail = describe("a request one byte over the limit was accepted")
 		verdict.Outcome = "OVER-LIMIT-ACCEPTED"
 	case obs.Class == "resource_exhausted" && wantAccept:
-		if tc.Compression != "identity" {
+		if c19sRejectedOnOtherSize(obs.Message, target, tc.Compression) {
 			verdict.Key = "limit-measured-on-compressed:server:" + tc.Compression
-			verdict.Detail = describe("a request within the limit (uncompressed size) was rejected")
+			verdict.Detail = describe("a request within the limit (uncompressed size) was rejected because of its compressed size")
 		} else {
 			verdict.Key = "limit-not-sharp:server:" + tc.Compression
 			verdict.Detail = describe("a request within the limit was rejected")
@@ -814,9 +832,13 @@ func c19sClientSide(env *c19sEnv, tc c19sCase) (c19sVerdict, error) {
 		verdict.Detail = describe("a response one byte over the limit was accepted")
 		verdict.Outcome = "OVER-LIMIT-ACCEPTED"
 	case obs.Class == "resource_exhausted" && !wantReject:
-		if tc.Compression != "identity" {
+		rejectedSize := -1
+		if len(obs.Payloads) < len(sizes) {
+			rejectedSize = sizes[len(obs.Payloads)]
+		}
+		if c19sRejectedOnOtherSize(obs.Message, rejectedSize, tc.Compression) {
 			verdict.Key = "limit-measured-on-compressed:client:" + tc.Compression
-			verdict.Detail = describe("a response within the limit (uncompressed size) was rejected")
+			verdict.Detail = describe("a response within the limit (uncompressed size) was rejected because of its compressed size")
 		} else {
 			verdict.Key = "limit-not-sharp:client:" + tc.Compression
 			verdict.Detail = describe("a response within the limit was rejected")
